@@ -49,6 +49,11 @@ def items(tier, seed):
                         styles=([k for k in printer.STYLES if tier != 'quick' or k not in ('tabs', 'whitespace', 'comments_blank')]) if n not in [p[0] for p in PRECEDENCE] else ['source']))
     its.append(dict(name='rejections', kind='reject', src='rejections', budget=100))
     its.append(dict(name='rename_to_reserved', kind='rename', src="v = 0\nx = 0\nwhile true:\n    v = Bernoulli(1/2)\n    x = x + v\nend", budget=100))
+    # names of the generated namespace (D26): single-assignment aliases _x1, get_unique_var names _u0/_t0/_old0/_c0/_r0
+    its.append(dict(name='rename_to_generated', kind='rename', budget=100, names=['_x1', '_x2', '_u0', '_u1', '_t0', '_old0', '_old1', '_c0', '_r0', '_a0', '_w'],
+                    src="x = 0\nv = 5\nwhile true:\n    x = x + 1\n    v = v + x {1/2} v\n    x = x + 1\nend"))
+    its.append(dict(name='rename_param_to_generated', kind='rename', budget=100, names=['_x1', '_u0', '_old0', '_q'], target='q',
+                    src="x = 0\nwhile true:\n    x = x + q\n    x = x + 1 {1/2} x\nend"))
     return its
 
 
@@ -68,16 +73,18 @@ def check_item(it):
     if it['kind'] == 'rename':
         # alpha-renaming a variable must not change results (names that the CAS reads as constants are the risk)
         base = it['src']; ref = lang.expected_values(base, [sp.Symbol('x')], 3)[sp.Symbol('x')]
-        for nm in ('e', 'pi', 'i', 'gamma', 'beta', 'zeta', 'oo', 'lamda'):
-            text = re.sub(r'\bv\b', nm, base)
+        tgt = it.get('target', 'v')
+        for nm in it.get('names', ('e', 'pi', 'i', 'gamma', 'beta', 'zeta', 'oo', 'lamda')):
+            text = re.sub(r'\b%s\b' % tgt, nm, base)
+            ref_nm = [r_.xreplace({sp.Symbol(tgt): sp.Symbol(nm)}) if hasattr(r_, 'xreplace') else r_ for r_ in ref]
             st, out = common.run_probe('analyze.py', dict(src=text, goals=['x']), timeout=60); checked += 1
             if st != 'ok' or 'probe_error' in out: continue
             if 'parse_error' in out or 'normalize_error' in out or 'error' in out['goals']['x']: continue     # refusing the name is fine
             cf = judge.from_srepr(out['goals']['x']['closed_form'])
             for n in range(4):
-                ok, _ = judge.is_zero(judge.at_n(cf, n) - ref[n])
+                ok, _ = judge.is_zero(judge.at_n(cf, n) - ref_nm[n])
                 if not ok:
-                    viol.append(dict(goal=f'variable named {nm}', n=n, observed=str(judge.at_n(cf, n)), expected=str(ref[n]))); break
+                    viol.append(dict(goal=f'variable named {nm}', n=n, observed=str(judge.at_n(cf, n)), expected=str(ref_nm[n]))); break
         return dict(status='violation' if viol else 'ok', checked=checked, violations=viol, nontrivial=True)
     # spellings
     try:
